@@ -1211,6 +1211,65 @@ class _SearchSorted(Op):
         return numpy.searchsorted(numpy.array(p[0]), v, side=p[1])
 
 
+NDDOFMAPS = {(2, 2): [(((0, 2), (3, 1)), 4), (((1, 1), (0, 2)), 3)], (2, 3): [(((0, 2, 4), (5, 3, 1)), 6)], (2, 2, 2): [((((0, 1), (2, 3)), ((4, 5), (6, 7))), 8), ((((7, 0), (3, 4)), ((1, 6), (5, 2))), 8)],
+             (3, 2): [(((0, 1), (2, 3), (4, 5)), 6)]}
+
+
+@op('inflatend', core=True)
+class _InflateND(Op):
+    'scatter-add of the trailing k axes through a constant k-dimensional dof map (k = 2, 3)'
+
+    def params(self, t):
+        shape, k = t
+        if k == 'b':
+            return []
+        return [(dm, n) for sh, lst in NDDOFMAPS.items() if len(shape) >= len(sh) and tuple(shape[len(shape) - len(sh):]) == sh for dm, n in lst]
+
+    def ty(self, p, t):
+        shape, k = t
+        dm, n = p
+        dsh = numpy.array(dm).shape
+        if k == 'b' or len(shape) < len(dsh) or tuple(shape[len(shape) - len(dsh):]) != dsh:
+            raise IllTyped
+        return shape[:len(shape) - len(dsh)] + (n,), k
+
+    def build(self, ev, p, x):
+        return ev.Inflate(x, ev.constant(numpy.array(p[0], dtype=int)), ev.constant(p[1]))
+
+    def ref(self, p, v):
+        dm = numpy.array(p[0], dtype=int)
+        lead = v.shape[:v.ndim - dm.ndim]
+        out = numpy.zeros(lead + (p[1],), dtype=v.dtype)
+        for idx in numpy.ndindex(*dm.shape):
+            out[..., dm[idx]] = out[..., dm[idx]] + v[(Ellipsis,) + idx]
+        return out
+
+
+@op('takend', core=True)
+class _TakeND(Op):
+    'gather of the last axis through a constant k-dimensional index array'
+    tables = {2: [((0, 1), (1, 0)), ((1, 1, 0), (0, 1, 1))], 3: [((2, 0), (1, 1)), (((0, 1), (2, 0)), ((1, 1), (0, 2)))]}
+
+    def params(self, t):
+        shape, k = t
+        if not shape or len(shape) > 2:
+            return []
+        return [(tb,) for tb in self.tables.get(shape[-1], [])]
+
+    def ty(self, p, t):
+        shape, k = t
+        ix = numpy.array(p[0])
+        if not shape or ix.max() >= shape[-1]:
+            raise IllTyped
+        return shape[:-1] + ix.shape, k
+
+    def build(self, ev, p, x):
+        return ev.Take(x, ev.constant(numpy.array(p[0], dtype=int)))
+
+    def ref(self, p, v):
+        return v[..., numpy.array(p[0], dtype=int)]
+
+
 # ------------------------------------------------------------------ interpretation
 
 def typeof(term, _memo=None):
